@@ -39,7 +39,7 @@ ASSUMPTIONS = ['leaf masks come from glue itself (fresh objects): this check dec
 PROBES = ['operand_reread_after_combine', 'multior_of_existing', 'edit_mode_and', 'edit_mode_or', 'edit_mode_xor', 'edit_mode_andnot',
           'edit_mode_new', 'two_edit_subsets', 'same_state_object_applied_again', 'incompatible_expected', 'view_compare', 'nan_inf_data', 'depth_ge_3', 'copy_compared']
 
-KINDS = ['ineq', 'range', 'mrange', 'roi', 'mask', 'slice', 'elem', 'catroi', 'cat', 'empty']
+KINDS = ['ineq', 'range', 'mrange', 'roi', 'mask', 'slice', 'elem', 'catroi', 'cat', 'empty', 'ineq2']
 WEIGHTS = {'new_group': 4, 'combine': 5, 'invert': 2, 'multior': 2, 'copy': 1.5, 'apply': 5, 'set_edit': 1.5, 'set_state': 1,
            'read': 8, 'read_sub': 3, 'check': 1.5, 'new': 0.7, 'append': 0.7, 'add_derived': 0.5}
 VIEWS = [None, None, [[0, 3, 1]], [[1, 4, 2]], [[0, 2, 1], [0, 2, 1]], [[0, 5, 2], [1, 2, 1], [0, 3, 2]]]
@@ -72,6 +72,15 @@ def generate(rng, cfg, guards):
             ops.append([k, r8(), r8(), rng.pick(['mul2', 'add3', 'neg'])])
         elif k == 'new_group':
             ops.append([k, W.gen_recipe(rng, rng.pick([1, 2, 3]), KINDS)])
+            if rng.chance(0.2):
+                # a selection replaced by one that differs from it in a single operand (a number <-> another attribute)
+                d_, c_, o_ = r8(), r8(), rng.randrange(6)
+                pair = [['ineq', d_, c_, o_, rng.randrange(-3, 12) + 0.5], ['ineq2', d_, c_, o_, r8()]]
+                if rng.chance(0.5):
+                    pair.reverse()
+                ops[-1] = [k, pair[0]]
+                ops.append(['set_edit', [-1]])
+                ops.append(['apply', pair[1], 0, False])
         elif k == 'set_state':
             ops.append([k, r8(), W.gen_recipe(rng, 2, KINDS)])
         elif k == 'combine':
@@ -158,6 +167,16 @@ def fold(w, t, d, cache):
         if st != 'ok':
             raise Incompat(st)
         r = np.array(np.broadcast_to(m, d.shape), dtype=bool)
+        if k == 'mrange':
+            # a many-range selection is the 'or' of its ranges, each evaluated as a selection of its own
+            u = np.zeros(d.shape, dtype=bool)
+            for lo, hi in t[3]:
+                s1, m1 = W.mask_of(d, w.build_leaf(['range', t[1], t[2], lo, hi]))
+                if s1 == 'ok':
+                    u |= np.broadcast_to(m1, d.shape)
+            if not np.array_equal(u, r):
+                raise Violation('C01/many-range-selection-differs-from-or-of-its-ranges', 'pairs %s: %s vs %s' % (
+                    t[3], r.ravel()[:10].astype(int).tolist(), u.ravel()[:10].astype(int).tolist()))
     cache[key] = r
     return r
 
@@ -189,6 +208,9 @@ class AlgebraWorld(W.World):
         if k in ('ineq', 'range', 'mrange'):
             cids = self.cids_of(d, True)
             out[2] = r[2] % len(cids)
+        elif k == 'ineq2':
+            cids = self.cids_of(d, True)
+            out[2], out[4] = r[2] % len(cids), r[4] % len(cids)
         elif k == 'roi':
             cids = self.cids_of(d, True)
             out[2], out[3] = r[2] % len(cids), r[3] % len(cids)
